@@ -199,7 +199,29 @@ def tree_fingerprint():
     return h.hexdigest()[:16]
 
 
-CLI_WRAPS = ["fopen", "abort", "__assert_fail", "exit", "fileno", "fstat"]
+def build_locale():
+    """A single-byte, Latin-1-like locale (0x80..0x9f are control characters) compiled with localedef into build/locale:
+    the tool calls setlocale(LC_ALL, "") and only C / C.UTF-8 / POSIX are installed here.  Returns the LOCPATH or None."""
+    d = os.path.join(BUILD, "locale")
+    tgt = os.path.join(d, "xx_XX.LEGACY8")
+    if os.path.exists(os.path.join(tgt, "LC_CTYPE")):
+        return d
+    try:
+        os.makedirs(d, exist_ok=True)
+        cm = os.path.join(d, "LEGACY8.charmap")
+        with open(cm, "w") as f:
+            f.write("<code_set_name> LEGACY8\n<comment_char> %\n<escape_char> /\n<mb_cur_max> 1\n<mb_cur_min> 1\nCHARMAP\n")
+            for i in range(256):
+                f.write("<U%04X> /x%02x\n" % (i, i))
+            f.write("END CHARMAP\n")
+        subprocess.run(["localedef", "-c", "-f", cm, "-i", os.path.join(VERIF, "sim/cli/locale/legacy8.src"), tgt],
+                       stdout=subprocess.PIPE, stderr=subprocess.STDOUT)
+        return d if os.path.exists(os.path.join(tgt, "LC_CTYPE")) else None
+    except Exception:
+        return None
+
+
+CLI_WRAPS = ["fopen", "abort", "__assert_fail", "exit", "fileno", "fstat", "setlocale", "strerror"]
 
 
 def build_cli():
